@@ -2,6 +2,8 @@
  * mod_auth.c (rule lookup, Basic, Digest, auth cache, periodic cleanup) and
  * mod_authn_file.c (plain / htdigest / htpasswd backends) driven in-process.
  *
+ * (link with -lcrypt: htpasswd records of 13+ bytes go to crypt(3))
+ *
  * One self-contained scenario per line:
  *   run <hsel> <hmod> <cache> <backend> <file> <mono0> <epoch0> <nrules> <rule>... <op>...
  *     hsel    r|s     cache key = djb(user, djb(le64(rule index | scheme id)))      (see ltv_djbhash)
